@@ -338,6 +338,10 @@ func vMakeLife(c *vCase, kind string, port int) *vLife {
 				p.NewData(make([]int16, 8*g[1]), []int16{int16(g[1])})
 				out = append(out, p.Bytes())
 			}
+			if i%97 == 5 {
+				// stray traffic on the data port: an empty datagram and a few bytes that are no packet (a source ignores them)
+				out = append(out, []byte{}, []byte{1, 2, 3})
+			}
 			return out
 		})
 		l.feed = func(on bool) {
